@@ -512,7 +512,13 @@ static Case gen_c17()
       std::vector<long> v(oor);
       return std::to_string(v[(size_t)g::range(0, (long)v.size())]);
     }
-    return std::to_string(g::oneof<long>({256, 257, -1, 128, 255, 260, 512, 65536, -256}));
+    if (k < 96)
+      return std::to_string(g::oneof<long>({256, 257, -1, 128, 255, 260, 512, 65536, -256}));
+    // numbers that do not fit an int / a long: a conversion that wraps (2^32 + m) or saturates or throws must still
+    // end in "out of range", never in mode m and never in a crash
+    return g::oneof<const char *>({"4294967296", "4294967297", "4294967298", "4294967300", "-4294967295", "-4294967294", "2147483648", "-2147483649", "8589934593",
+                                   "9223372036854775807", "9223372036854775808", "-9223372036854775808", "-9223372036854775809", "18446744073709551616", "18446744073709551617",
+                                   "99999999999999999999", "340282366920938463463374607431768211457", "1000000000000000000000000000000000000000000000000000000000000000000000000001"});
   };
   c.set("cmode", modeval(4, {5, 6, 99, 127, -2, -5}));
   c.set("hmode", modeval(2, {3, 7, 100, -3}));
@@ -574,9 +580,9 @@ static void fixed_c17(Ctx &ctx)
   mk({{"modes", "v"}, {"input", "tampered"}, {"key", "right"}});
   for (const char *k : {"len23", "len25", "eq0", "eq1", "badalpha", "empty", "long"})
     mk({{"modes", "v"}, {"input", "wenc"}, {"key", k}});
-  for (const char *cmv : {"5", "99", "-2", "256", "-1", "128", "255", "260"})
+  for (const char *cmv : {"5", "99", "-2", "256", "-1", "128", "255", "260", "4294967296", "4294967297", "-4294967295", "2147483648", "9223372036854775808", "18446744073709551617", "99999999999999999999999999999999999999999"})
     mk({{"cmode", cmv}});
-  for (const char *hmv : {"3", "100", "-3", "256", "-1", "255"})
+  for (const char *hmv : {"3", "100", "-3", "256", "-1", "255", "4294967296", "4294967298", "-4294967294", "18446744073709551618", "99999999999999999999999999999999999999999"})
     mk({{"hmode", hmv}});
   for (const char *pl : {"120", "122", "123", "124", "127", "128", "129", "130", "200", "245", "246", "247", "248", "249", "250", "251", "252", "253", "254", "255", "256", "257", "258", "259", "260", "261", "511", "512", "513", "1000", "1023", "1024", "1025", "3000"})
   {
